@@ -2,4 +2,5 @@ pub mod alphabet;
 pub mod curves;
 pub mod evidence;
 pub mod program;
+pub mod proofparts;
 pub mod props;
